@@ -11,6 +11,20 @@ CLAIMS = {
                   "positive, CR LF join, arrival order) about a Gallina model of reply/replies; model tied to the code by an "
                   "exhaustive sweep of all 65536 codes and enumerated/random reply sequences.",
              design="4/C15", note=LEAF_NOTE, technique="Coq proof (induction over appends) + exhaustive/differential correspondence with the C++ classes"),
+ "C01": dict(text="Theorem: for every list of well-formed replies, every rest, every split into buffered/unread bytes, every read "
+                  "schedule and ending, the k-th receive step of the model returns exactly the k-th reply and the unread "
+                  "rest is kept (unbounded in replies, lines up to the cap); corollary: schedule irrelevance. The model "
+                  "(match_eol, read_until with the cap, read_line, recv) is tied to the real control_connection::recv, which "
+                  "runs boost::asio::read_until and match_eol over an injected in-memory transport with the same schedules.",
+             design="4/C01", note=LEAF_NOTE + " boost::asio::read_until is modelled (search, full-buffer check, read) and validated by running the real one; bare-CR terminators are outside the property.",
+             technique="Coq proof (invariant buffer++unread = remaining stream; induction over replies and lines) + differential correspondence over read schedules"),
+ "C08": dict(text="Theorems: the repaired reply reader terminates with a reply or an exception on EVERY byte stream, schedule and "
+                  "ending (explicit fuel never exhausted); the line buffer never exceeds the cap and a full buffer without "
+                  "terminator is refused without another read; decimal parsing is exact-or-rejected. PARTIAL: crashes, "
+                  "out-of-bounds accesses and foreign exception types are runtime behaviour no Coq model of this code can "
+                  "exhibit; they are covered only by AddressSanitizer/UBSan differential runs (testing, labelled as such).",
+             design="4/C08", note=LEAF_NOTE + " The runtime half (memory safety, exception types) rests on sanitised execution of truncated, mutated and arbitrary streams; data-connection and TLS-handshake fault points are exercised by the protocol checks.",
+             technique="Coq proof (termination by measure |buffer|+|unread|, cap invariant) + sanitised differential correspondence with fault injection at every stream position"),
  "C05": dict(text="Theorems for every byte string, every chunking of the source (internal buffer size and short reads), every "
                   "sequence of caller buffer sizes and every partition into write calls: upload output = to_crlf, download sink = "
                   "from_crlf with one final flush, LF-only text round-trips; model tied to the real converter classes by "
